@@ -64,13 +64,17 @@ type TOp struct {
 }
 
 type SchedTrace struct {
-	Kind      string           `json:"kind"` // "sched"
-	Prop      string           `json:"property"`
-	Seed      uint64           `json:"seed"`
-	RunIdx    uint64           `json:"run_index"`
-	Scalars   []hist.Hex       `json:"shared_scalars"` // canonical encodings
-	Points    []hist.Hex       `json:"shared_points"`  // point encodings
-	Programs  [][]TOp          `json:"programs"`
+	Kind     string     `json:"kind"` // "sched"
+	Prop     string     `json:"property"`
+	Seed     uint64     `json:"seed"`
+	RunIdx   uint64     `json:"run_index"`
+	Scalars  []hist.Hex `json:"shared_scalars"` // canonical encodings
+	Points   []hist.Hex `json:"shared_points"`  // point encodings
+	Programs [][]TOp    `json:"programs"`
+	// Pre: operations executed sequentially, in the same process, before the
+	// concurrent phase starts (the process is then no longer cold: call-count
+	// thresholds, warm caches and already-built tables meet the concurrent callers)
+	Pre       []TOp            `json:"pre_roll,omitempty"`
 	First     int              `json:"first_task"`
 	Decisions []sched.Decision `json:"decisions"`
 	Policy    string           `json:"policy,omitempty"`
@@ -95,7 +99,7 @@ type SchedOut struct {
 var opMenu = []string{"ScalarBaseMult", "VarTimeDoubleScalarBaseMult", "ScalarMult", "MultiScalarMult", "VarTimeMultiScalarMult",
 	"Add", "BytesRoundTrip", "NewGenerator", "ScalarInvert", "MultByCofactor",
 	"Encode", "ScalarArith", "FieldArith", "NegateSubtract", "CoordsRoundTrip", "Equal",
-	"SetterErrors", "ScalarSweep", "ElementSweep", "MultiMany", "SharedElements"}
+	"SetterErrors", "ScalarSweep", "ElementSweep", "MultiMany", "SharedElements", "SharedBytes", "SharedSlices"}
 
 func genSchedTrace(base, idx uint64, small bool) (*SchedTrace, sched.Policy, uint64) {
 	seed := prng.Derive(base, "C18", idx)
@@ -134,9 +138,15 @@ func genSchedTrace(base, idx uint64, small bool) (*SchedTrace, sched.Policy, uin
 	if small {
 		nt = 2 + rng.Intn(3)
 	}
-	w := []int{10, 8, 2, 2, 2, 1, 1, 1, 1, 1, 1, 1, 1, 1, 1, 1, 1, 1, 1, 1, 1}
-	longProgs := !small && rng.Bool(0.15)
-	if longProgs || rng.Bool(0.3) {
+	w := []int{10, 8, 2, 2, 2, 1, 1, 1, 1, 1, 1, 1, 1, 1, 1, 1, 1, 1, 1, 1, 1, 1, 1}
+	longProgs := rng.Bool(0.15)
+	// crowd: many more concurrent callers than any fixed number of preallocated
+	// slots, one operation each, of one or two kinds
+	crowd := 0
+	if !small && !longProgs && rng.Bool(0.05) {
+		crowd = []int{17, 20, 33, 40, 65, 129}[rng.Intn(6)]
+	}
+	if longProgs || crowd > 0 || rng.Bool(0.3) {
 		// swarm: a run that is not about the lazy tables but about overlap inside a few
 		// randomly chosen operations (shared scratch state shows only when two calls of
 		// the same operation overlap)
@@ -152,6 +162,9 @@ func genSchedTrace(base, idx uint64, small bool) (*SchedTrace, sched.Policy, uin
 		// scratch, caches) meets overlapping later calls
 		nt = 2 + rng.Intn(3)
 	}
+	if crowd > 0 {
+		nt = crowd
+	}
 	for i := 0; i < nt; i++ {
 		nops := 1 + rng.Intn(3)
 		if small {
@@ -159,6 +172,9 @@ func genSchedTrace(base, idx uint64, small bool) (*SchedTrace, sched.Policy, uin
 		}
 		if longProgs {
 			nops = 5 + rng.Intn(8)
+		}
+		if crowd > 0 {
+			nops = 1
 		}
 		var prog []TOp
 		for j := 0; j < nops; j++ {
@@ -240,7 +256,28 @@ func genSchedTrace(base, idx uint64, small bool) (*SchedTrace, sched.Policy, uin
 		pol.PCold = []float64{0, 1e-3, 1e-4}[rng.Intn(3)]
 		t.Policy = fmt.Sprintf("random(hot=%g,cold=%g)", pol.PHot, pol.PCold)
 	}
-	return t, pol, rng.Uint64()
+	schedSeed := rng.Uint64()
+	// pre-roll: a quarter of the runs do not start from a cold process
+	if rng.Bool(0.25) {
+		n := []int{1, 2, 7, 15, 16, 17, 31, 32, 63}[rng.Intn(9)]
+		src := t.Programs[rng.Intn(len(t.Programs))]
+		op := src[rng.Intn(len(src))]
+		for k := 0; k < n; k++ {
+			c := TOp{Kind: op.Kind, S: append([]int{}, op.S...), P: append([]int{}, op.P...)}
+			if k%2 == 1 {
+				for j := range c.S {
+					c.S[j] = (c.S[j] + k) % ns
+				}
+				for j := range c.P {
+					if c.P[j] >= 0 {
+						c.P[j] = (c.P[j] + k) % np
+					}
+				}
+			}
+			t.Pre = append(t.Pre, c)
+		}
+	}
+	return t, pol, schedSeed
 }
 
 type shared struct {
@@ -249,6 +286,14 @@ type shared struct {
 	// E: shared read-only field elements (the y coordinates of the shared points),
 	// half of them in an unreduced representation of the same value
 	E []*field.Element
+	// B: read-only byte buffers that several tasks pass to setters at the same time
+	// (a 64-byte seed whose first half is also used as a 32-byte window with spare
+	// capacity, the encoding of a shared point, canonical scalar bytes)
+	B [][]byte
+	// SS, PP: one scalar slice and one point slice (spare capacity behind the
+	// window) that several tasks pass to the multi-scalar routines at the same time
+	SS []*edwards25519.Scalar
+	PP []*edwards25519.Point
 }
 
 func buildShared(t *SchedTrace) (*shared, error) {
@@ -283,6 +328,30 @@ func buildShared(t *SchedTrace) (*shared, error) {
 		}
 		sh.E = append(sh.E, hist.ElemFromInt(y, len(sh.E)%2 == 1))
 	}
+	// shared byte inputs and term slices, derived from the trace (no library call)
+	seed := make([]byte, 0, 64)
+	for _, b := range t.Scalars {
+		seed = append(seed, b...)
+	}
+	for len(seed) < 64 {
+		seed = append(seed, byte(len(seed))|0x81)
+	}
+	seed = seed[:64]
+	seed[0] |= 7     // clamping would clear these bits
+	seed[31] |= 0x80 // and this one
+	sh.B = append(sh.B, seed, append([]byte{}, t.Points[len(t.Points)-1]...), append([]byte{}, t.Scalars[0]...))
+	n := 3
+	if len(sh.S) < n {
+		n = len(sh.S)
+	}
+	if len(sh.P) < n {
+		n = len(sh.P)
+	}
+	ss := make([]*edwards25519.Scalar, n, n+5)
+	pp := make([]*edwards25519.Point, n, n+5)
+	copy(ss, sh.S)
+	copy(pp, sh.P)
+	sh.SS, sh.PP = ss, pp
 	return sh, nil
 }
 
@@ -491,6 +560,27 @@ func runProgram(prog []TOp, sh *shared, out *[]string) {
 				extra = " e=" + hx(e.Bytes()) + " f=" + hx(f.Bytes()) + " a=" + hx(a.Bytes()) + " b=" + hx(b.Bytes()) + " c=" + hx(c.Bytes()) +
 					" sqrt=" + hx(r.Bytes()) + "/" + strconv.Itoa(wasSq) + " eq=" + strconv.Itoa(e.Equal(f)) + "/" + strconv.Itoa(f.Equal(f))
 				recv = edwards25519.NewIdentityPoint()
+			case "SharedBytes":
+				// byte inputs that other tasks are passing to setters at the same time
+				seed, penc, sb := sh.B[0], sh.B[1], sh.B[2]
+				c1, e1 := new(edwards25519.Scalar).SetBytesWithClamping(seed[:32])
+				c2, e2 := new(edwards25519.Scalar).SetUniformBytes(seed)
+				c3, e3 := new(edwards25519.Scalar).SetCanonicalBytes(sb)
+				f1, e4 := new(field.Element).SetBytes(seed[:32])
+				f2, e5 := new(field.Element).SetWideBytes(seed)
+				_, e6 := recv.SetBytes(penc)
+				extra = " errs=" + errText(e1) + "|" + errText(e2) + "|" + errText(e3) + "|" + errText(e4) + "|" + errText(e5) + "|" + errText(e6)
+				if e1 == nil && e2 == nil && e3 == nil && e4 == nil && e5 == nil {
+					extra += " c=" + hx(c1.Bytes()) + hx(c2.Bytes()) + hx(c3.Bytes()) + " f=" + hx(f1.Bytes()) + hx(f2.Bytes())
+				}
+				if e6 != nil {
+					recv = nil
+				}
+			case "SharedSlices":
+				// the very same slices that other tasks are passing at the same time
+				recv.MultiScalarMult(sh.SS, sh.PP)
+				v := new(edwards25519.Point).VarTimeMultiScalarMult(sh.SS, sh.PP)
+				extra = " vartime-equal=" + strconv.Itoa(v.Equal(recv))
 			case "MultiMany":
 				var ss []*edwards25519.Scalar
 				var ps []*edwards25519.Point
@@ -535,6 +625,17 @@ func freshShared(sh *shared) *shared {
 	for _, e := range sh.E {
 		out.E = append(out.E, new(field.Element).Add(e, new(field.Element).One()))
 	}
+	seed := append([]byte{}, sh.B[0]...)
+	for i := range seed {
+		seed[i] ^= 0x5a
+	}
+	out.B = append(out.B, seed, out.P[len(out.P)-1].Bytes(), out.S[0].Bytes())
+	n := len(sh.SS)
+	ss := make([]*edwards25519.Scalar, n, n+5)
+	pp := make([]*edwards25519.Point, n, n+5)
+	copy(ss, out.S)
+	copy(pp, out.P)
+	out.SS, out.PP = ss, pp
 	return out
 }
 
@@ -584,6 +685,17 @@ func rawShared(sh *shared) []byte {
 	for _, e := range sh.E {
 		b = append(b, fmt.Sprint(alpha.ElemLimbs(e))...)
 	}
+	for _, x := range sh.B {
+		b = append(b, hx(x[:cap(x)])...)
+		b = append(b, '|')
+	}
+	// the whole backing arrays of the shared term slices, by pointer identity
+	for _, x := range sh.SS[:cap(sh.SS)] {
+		b = append(b, fmt.Sprintf("%p,", x)...)
+	}
+	for _, x := range sh.PP[:cap(sh.PP)] {
+		b = append(b, fmt.Sprintf("%p,", x)...)
+	}
 	return b
 }
 
@@ -616,6 +728,10 @@ func cmdSchedRef() {
 	sh, err := buildShared(&t)
 	if err != nil {
 		fatal2("%v", err)
+	}
+	if len(t.Pre) > 0 {
+		var sink []string
+		runProgram(t.Pre, sh, &sink)
 	}
 	atStart := pkgVarStates()
 	ro := &RefOut{Results: make([][]string, len(t.Programs))}
@@ -749,6 +865,11 @@ func runSched(t *SchedTrace, pol sched.Policy, schedSeed uint64, replay [][]sche
 	if err != nil {
 		fatal2("%v", err)
 	}
+	if len(t.Pre) > 0 {
+		var sink []string
+		runProgram(t.Pre, sh, &sink)
+		so.Stats["runs_with_pre_roll"] = 1
+	}
 	sharedBefore := rawShared(sh)
 	n := len(t.Programs)
 	results := make([][]string, n)
@@ -769,6 +890,33 @@ func runSched(t *SchedTrace, pol sched.Policy, schedSeed uint64, replay [][]sche
 	so.Stats["gate_calls_open"] = int64(res.GateCallsOpen)
 	so.Stats["preempt_inside_once_closure"] = int64(res.PreemptInClosure)
 	so.Stats["tasks"] = int64(n)
+	{
+		// reach: the largest number of tasks that were inside their programs at the
+		// same time (started, not finished), from the decision log
+		started := make([]bool, n)
+		inflight, maxIn := 0, 0
+		mark := func(k int) {
+			if k >= 0 && k < n && !started[k] {
+				started[k] = true
+				inflight++
+				if inflight > maxIn {
+					maxIn = inflight
+				}
+			}
+		}
+		mark(first)
+		for _, d := range res.Log {
+			if d.Kind == 2 && d.Task >= 0 && d.Task < n && started[d.Task] {
+				inflight--
+			}
+			mark(d.Next)
+		}
+		for _, th := range []int{2, 5, 9, 17, 33, 65, 129} {
+			if maxIn >= th {
+				so.Stats[fmt.Sprintf("runs_with_%d_or_more_overlapping_tasks", th)] = 1
+			}
+		}
+	}
 	so.SwitchHash = fmt.Sprintf("%016x", res.SwitchHash)
 	if res.Watchdog {
 		fatal2("watchdog: the concurrent phase did not finish within 600 s (a task blocked in a primitive the scheduler does not control?)")
